@@ -2,7 +2,9 @@
 
 R06.adj     every non-singular leaf X of inverse()/gjInverse() satisfies X*M = I and M*X = I as
             rational-function identities (under the equalities on the leaf's own path)
-R06.sing    every other leaf is the identity matrix (singular / overflow-guard exits)
+R06.sing    every other leaf is the identity matrix (singular / overflow-guard exits); a Gauss-Jordan singular exit is
+            taken only when the whole pivot column is zero (the pivot size, a compare/negate/select term, is
+            evaluated on every signed order type of its candidates)
 R06.guard   on the |det| < 1 path every slot divided by the determinant is guarded on that path by the
             STRICT overflow test |s| < |det|/min of the same slot (strictness also excludes det == 0); the |det| >= 1 path divides the same slots
 R06.inplace invert()/gjInvert() leave exactly the value graph of inverse()/gjInverse()
@@ -23,6 +25,7 @@ def gen(t):
         fns = ['inverse'] + (['gjInverse'] if d > 2 else [])
         for f in fns:
             tu.add('w_%s%d' % (f, d), '%s& o, const %s& m' % (M, M), 'o = m.%s();' % f, d=d, fn=f, kind='value')
+            tu.add('w_%sB%d' % (f, d), '%s& o, const %s& m' % (M, M), 'o = m.%s(false);' % f, d=d, fn=f + '(false)', kind='value')
             ip = {'inverse': 'invert', 'gjInverse': 'gjInvert'}[f]
             tu.add('w_%s%d' % (ip, d), '%s& m' % M, 'm.%s();' % ip, d=d, fn=ip, kind='inplace', of='w_%s%d' % (f, d))
     return tu
@@ -58,6 +61,43 @@ def check_leaf(leaf, lits, d, t, max_conds=10):
                         return '(%s)[%d][%d] = %s, expected %d%s' % (nm, i, j, P.show_rat(acc, ctx)[:240], 1 if i == j else 0,
                                                                     (' when ' + PC.show_asg(asg)[:200]) if asg else ''), ncases
     return None, ncases
+
+def pivot_zero_only_if_all_zero(P):
+    """P is the Gauss-Jordan pivot size: a compare/negate/select term over the candidate entries of the column.
+    Its value depends only on the signed order type of the candidates, so it is evaluated on every assignment of
+    the candidates to {-k..k}:  P == 0 must imply that every candidate is 0 (a zero column: the matrix is singular).
+    Returns None or a counterexample description."""
+    import itertools
+    leaves = []; seen = set()
+    def collect(x):
+        if x.id in seen: return
+        seen.add(x.id)
+        if x.op in ('ite', 'fcmp', 'fneg', 'absi', 'not'):
+            for a in x.args: collect(a)
+        elif x.op == 'const': pass
+        else: leaves.append(x)
+    collect(P)
+    if not leaves or len(leaves) > 4: return 'pivot size depends on %d opaque values' % len(leaves) if len(leaves) > 4 else None
+    k = len(leaves)
+    def ev(x, env, memo):
+        r = memo.get(x.id)
+        if r is not None: return r
+        if x.op == 'const': r = T.const_value(x) if x.ty != 'i1' else bool(x.attr[1])
+        elif x.op == 'ite': r = ev(x.args[1], env, memo) if ev(x.args[0], env, memo) else ev(x.args[2], env, memo)
+        elif x.op == 'not': r = not ev(x.args[0], env, memo)
+        elif x.op == 'fneg': r = -ev(x.args[0], env, memo)
+        elif x.op == 'absi': r = abs(ev(x.args[0], env, memo))
+        elif x.op == 'fcmp':
+            a, b = ev(x.args[0], env, memo), ev(x.args[1], env, memo)
+            r = {'olt': a < b, 'ole': a <= b, 'oeq': a == b, 'one': a != b}[x.attr]
+        else: r = env[x.id]
+        memo[x.id] = r
+        return r
+    for vals in itertools.product(range(-k, k + 1), repeat=k):
+        env = {l.id: Fraction(v) for l, v in zip(leaves, vals)}
+        if ev(P, env, {}) == 0 and any(v != 0 for v in vals):
+            return 'the pivot size evaluates to 0 for column candidates %s: the matrix is reported singular although a candidate pivot is non-zero' % (list(vals),)
+    return None
 
 def guard_check(leaf, lits, d, lt):
     """R06.guard for one non-singular leaf on the |det| < 1 side"""
@@ -129,11 +169,18 @@ def main(rep, ws, tier):
                        '' if same else 'the in-place form does not leave the value graph of the value-returning form', where)
                 continue
             lv = T.leaves(J, 100000)
-            nsing = 0; ninv = 0; bad = None; badg = None; ncases = 0; und = None
+            nsing = 0; ninv = 0; bad = None; badg = None; ncases = 0; und = None; badp = None; npiv = 0
             div_sets = {}
             for lits, leaf in lv:
                 if is_identity(leaf, d):
                     nsing += 1
+                    if m['fn'].startswith('gj') and badp is None:
+                        zs = [c for c, v in lits if v is True and c.op == 'fcmp' and c.attr == 'oeq' and any(a.op == 'const' and T.const_value(a) == 0 for a in c.args)]
+                        if not zs: badp = 'a singular exit is not behind a pivot == 0 test'
+                        else:
+                            c = zs[-1]; Pv = c.args[1] if (c.args[0].op == 'const') else c.args[0]
+                            npiv += 1
+                            badp = pivot_zero_only_if_all_zero(Pv)
                     continue
                 if leaf.op != 'tuple':
                     bad = 'unexpected leaf %s' % T.show(leaf, 2); break
@@ -168,6 +215,8 @@ def main(rep, ws, tier):
                        sample='%s: %d inverse leaves, %d singular (identity) leaves' % (oid, ninv, nsing))
             rep.ob(oid + '#singular', 'R06.sing', HOLDS if nsing > 0 and not bad else VIOLATED,
                    '%d singular exits, each stores the identity' % nsing if nsing else 'no singular exit returns the identity', where, nontrivial=False)
+            if m['fn'].startswith('gj'):
+                rep.ob(oid + '#singular-iff', 'R06.sing', VIOLATED if badp else HOLDS, badp or '%d singular exits: the pivot size is 0 only when every candidate of the column is 0 (signed order types enumerated)' % npiv, where)
             if m['fn'] == 'inverse':
                 incons = [k for k, v in div_sets.items() if len(v) == 2 and v[True] != v[False] and not (v[False] <= v[True] or v[True] <= v[False])]
                 rep.ob(oid + '#guard', 'R06.guard', VIOLATED if (badg or incons) else HOLDS, badg or ('the two scaling branches divide different slot sets' if incons else ''), where)
